@@ -153,7 +153,8 @@ def run_case(case):
                cfg["shard_bits"])[0] for p in subset}) > 64),
            "minishard_data_over_1MiB": int(cfg["chunk"] >= 64 and len(subset) >= 5),
            "identifiers_ge_2_16": int(max(shardlib.cmc_of(cfg, p) for p in subset) >= 2 ** 16),
-           "identifiers_ge_2_32": int(max(shardlib.cmc_of(cfg, p) for p in subset) >= 2 ** 32)}
+           "identifiers_ge_2_32": int(max(shardlib.cmc_of(cfg, p) for p in subset) >= 2 ** 32),
+           "identifiers_gt_2_53": int(max(shardlib.cmc_of(cfg, p) for p in subset) > 2 ** 53)}
     ctx = (f"grid {cfg['grid']} chunk {cfg['chunk']} bits(m,s,p)=({cfg['minishard_bits']},"
            f"{cfg['shard_bits']},{cfg['preshift_bits']}) enc(index,data)=("
            f"{cfg['minishard_index_encoding']},{cfg['data_encoding']}) subset={kind}"
@@ -267,4 +268,5 @@ def gates(obs, tier):
         "megabyte_minishards": obs.get("minishard_data_over_1MiB", 0) > 0,
         "identifiers_beyond_2_16_and_2_32": obs.get("identifiers_ge_2_16", 0) > 0
         and obs.get("identifiers_ge_2_32", 0) > 0,
+        "identifiers_beyond_2_53": obs.get("identifiers_gt_2_53", 0) > 0,
     }
